@@ -60,6 +60,18 @@ for sid in ids:
     sh("git -C %s reset -q --hard ; git -C %s clean -fdq -e _build" % (WT, WT))
 head = sh("git -C /repo log --format=%h -1")[1].strip()
 vhead = sh("git -C /verif log --format=%h -1")[1].strip()
+# a partial run (ids given) updates the rows of an existing table
+if sys.argv[1:] and os.path.exists("/verif/seeded/REGRESSION.md"):
+    new = {r[0]: r for r in rows}
+    merged = []
+    for l in open("/verif/seeded/REGRESSION.md"):
+        if l.startswith("| C"):
+            cells = [c.strip() for c in l.strip().strip("|").split("|")]
+            if cells[0] in new:
+                merged.append(new.pop(cells[0]))
+            else:
+                merged.append(tuple(cells))
+    rows = merged + list(new.values())
 with open("/verif/seeded/REGRESSION.md", "w") as f:
     f.write("# Seeded changes re-run against the final checks\n\n/repo HEAD %s, /verif %s, quick tier, default budget, VERIF_SEED=1. Each patch is applied to a scratch worktree of /repo's HEAD, "
             "the property's check is pointed at it, and the patch is undone.\n\n| seed | check | patch | result | wall s |\n|---|---|---|---|---|\n" % (head, vhead))
